@@ -7,7 +7,8 @@
                   notebook would), spare Events created (global creation counter advanced), junk
                   allocated, and a second Simulation constructed between building and running the first;
   wallclock       in this process with time.time / time.monotonic / perf_counter (and the _ns forms)
-                  replaced by a clock that jumps forward by minutes at every call.
+                  replaced by a clock that jumps forward by minutes at every call; handlers of partition /
+                  worker 1 are slowed in wall time.
 
 Each returns the canonical digest lines of `hv/scenarios/digest.py`.
 """
@@ -48,11 +49,16 @@ def unrelated_activity(scen):
     rng = random.Random(f"activity/{scen['family']}/{scen['seed']}")
     # 1. other models built and run to completion (other families first, then the same family with other seeds)
     others = [n for n in names if n != scen["family"]]
-    picks = ([rng.choice(others)] if others else []) + [scen["family"]]
-    for n in picks:
+    picks = [(rng.choice(others), None)] if others else []
+    # the SAME model shape with other seeds: the same classes with the same constructor parameters (so any cache keyed
+    # by shape is populated by a different seed first), then, sometimes, the same family with another configuration
+    picks.append((scen["family"], scen["cfg"]))
+    if rng.random() < 0.3:
+        picks.append((scen["family"], None))
+    for n, cfg in picks:
         try:
-            run_scenario(n, fams[n].gen_cfg(rng), rng.randrange(2**31), keep_pushes=False, keep_deliveries=False,
-                         total_cap=8000)
+            run_scenario(n, fams[n].gen_cfg(rng) if cfg is None else cfg, rng.randrange(2**31), keep_pushes=False,
+                         keep_deliveries=False, total_cap=8000)
         except Exception:
             pass
     # 1b. an earlier simulation that died: a handler raised in the middle of the run and the caller caught it
@@ -125,9 +131,21 @@ def _decoy(sim):
     _KEEP.append((other, spare))
 
 
+def _with_wall_slow(index, fn):
+    """run `fn` while the harness entities of partition / worker `index` are slowed in wall time (threads finish their
+    windows in another order; simulated time is untouched)"""
+    from hv.scenarios import base
+
+    base.WALL_SLOW = index
+    try:
+        return fn()
+    finally:
+        base.WALL_SLOW = None
+
+
 def digest_after_activity(scen):
     unrelated_activity(scen)
-    return digest_inproc(scen, before_run=_decoy)
+    return _with_wall_slow(0, lambda: digest_inproc(scen, before_run=_decoy))
 
 
 # ----------------------------------------------------------------------------- jumping wall clock
@@ -155,13 +173,16 @@ def digest_wallclock(scen):
         time.time_ns = lambda: int(jc.tick() * 1e9)
         time.monotonic_ns = lambda: int(jc.tick() * 1e9)
         time.perf_counter_ns = lambda: int(jc.tick() * 1e9)
-        return digest_inproc(scen)
+        return _with_wall_slow(1, lambda: digest_inproc(scen))
     finally:
         for n, f in saved.items():
             setattr(time, n, f)
 
 
-INPROC_ENVS = {"inproc": digest_inproc, "after-activity": digest_after_activity, "wallclock": digest_wallclock}
+# Execution order matters: `after-activity` runs FIRST, so that its earlier same-shape / other-seed model is the first
+# of its shape in this interpreter (a cache keyed by shape is then filled by the wrong seed and every later run in the
+# process, `inproc` included, differs from the fresh interpreters).
+INPROC_ENVS = {"after-activity": digest_after_activity, "inproc": digest_inproc, "wallclock": digest_wallclock}
 
 
 # ----------------------------------------------------------------------------- fresh interpreters
